@@ -1,6 +1,526 @@
-//! C16 — stub: correspondence harness not built yet.
+//! C16 — the query parser is total and implements its documented grammar.
+//!
+//! (a) totality / robustness of the real parsers (`tantivy_query_grammar::{parse_query,
+//!     parse_query_lenient}`, `QueryParser::{parse_query, parse_query_lenient}`) on printed abstract
+//!     queries, mutations, random UTF-8, operator edge cases; very long and deeply nested inputs in
+//!     a child process with a wall-clock limit; strict-ok ⇒ lenient returns the same tree and no error;
+//! (b) fold correspondence: canonicalised real `UserInputAst` = `rewrite (build q)` of the Lean model;
+//! (c) semantics: doc-id set of the parsed query on a typed corpus = brute-force meaning of the
+//!     generating abstract query (oracle) = Lean `semQ` = Lean model of the parser pipeline.
+use crate::c16gen::*;
+use crate::rng::Rng;
 use crate::Ctx;
+use serde_json::{json, Value};
+use std::collections::BTreeSet;
+use std::panic::{catch_unwind, AssertUnwindSafe};
+use tantivy::collector::DocSetCollector;
+use tantivy::query::QueryParser;
+use tantivy::schema::{Schema, FAST, INDEXED, STORED, STRING, TEXT};
+use tantivy::{Index, IndexWriter, TantivyDocument};
+use tantivy_query_grammar::{parse_query, parse_query_lenient, UserInputAst};
 
-pub fn run(ctx: &mut Ctx) {
-    ctx.report.notes.push("C16: harness not built yet".into());
+const KEY_EXISTS_PANIC: &str = "C16:exists-without-field-panic";
+const KEY_UNWRAP: &str = "C16:rewrite-unwrap-changes-occur";
+const KEY_DEEP: &str = "C16:deep-nesting-stack-overflow";
+const KEY_LENIENT_REGEX: &str = "C16:lenient-regex-commit-differs-from-strict";
+const KEY_LENIENT_RANGE_SPACE: &str = "C16:lenient-range-space-before-closing-bracket";
+const KEY_LENIENT_RANGE_COMMIT: &str = "C16:lenient-range-commit-differs-from-strict";
+const KEY_JSON_NUL: &str = "C16:json-path-nul-byte-panic";
+const KEY_LENIENT_SET_QUOTE: &str = "C16:lenient-set-space-after-opening-bracket";
+const KEY_LENIENT_NOT: &str = "C16:lenient-not-requires-plain-space";
+const KEY_FIELD_WS: &str = "C16:field-name-absorbs-tab-newline";
+const KEY_SEEK_ASSERT: &str = "C16:search-exclude-seek-below-doc-debug-assert";
+const KEY_LENIENT_ADJACENT: &str = "C16:lenient-touching-clauses-differ-from-strict";
+const KEY_LENIENT_NOT_FIELD: &str = "C16:lenient-not-keyword-vs-field-name";
+const KEY_LENIENT_RANGE_ESCAPE: &str = "C16:lenient-range-bound-escape-differs";
+const KEY_BOOST_SKIP: &str = "C16:rewrite-skips-boosted-group";
+const KEY_SET_LOOP: &str = "C16:lenient-set-unicode-space-loop";
+
+// ------------------------------------------------------------------------------------------
+// generators
+// ------------------------------------------------------------------------------------------
+
+fn lit_str(s: &str) -> Lit {
+    Lit { text: s.to_string(), val: Val::Str(s.to_string()) }
 }
+
+fn typed_lit(rng: &mut Rng, f: usize) -> Lit {
+    match f {
+        F_U64 => {
+            let v = *rng.pick(&[0u64, 1, 2, 3, 4, 5, 10, 42, 999, 1000, u64::MAX]);
+            Lit { text: v.to_string(), val: Val::U(v) }
+        }
+        F_I64 | F_JSN => {
+            let v = *rng.pick(&[-1000i64, -6, -5, -1, 0, 1, 2, 3, 5, 7, 42, 43]);
+            Lit { text: v.to_string(), val: Val::I(v) }
+        }
+        F_F64 => {
+            let v = *rng.pick(&[-2.25f64, -1.0, 0.0, 0.5, 1.5, 2.0, 3.0, 60.7, 70.5]);
+            let text = if v.fract() == 0.0 && rng.chance(1, 2) { format!("{}", v as i64) } else { format!("{v:?}") };
+            Lit { text, val: Val::F(v) }
+        }
+        F_WHEN => {
+            let v = DATE_BASE + 3600 * (rng.below(10) as i64) - 10800 + if rng.chance(1, 4) { 1800 } else { 0 };
+            Lit { text: rfc3339(v), val: Val::Date(v) }
+        }
+        F_IP => {
+            let v = *rng.pick(&[0xffff_c0a8_0001u128, 0xffff_c0a8_00ff, 0xffff_0a00_0001, 1, 0x2001_0db8_0000_0000_0000_0000_0000_0001, 0xffff_c0a8_0002]);
+            Lit { text: ip_text(v), val: Val::Ip(v) }
+        }
+        F_BLOB => {
+            let v = rng.pick(&[&b"abc"[..], b"a", b"ab", b"\x00\xff\xfe", b"hello!", b"zz"]).to_vec();
+            Lit { text: b64(&v), val: Val::Bytes(v) }
+        }
+        F_FLAG => {
+            let v = rng.chance(1, 2);
+            Lit { text: v.to_string(), val: Val::Bool(v) }
+        }
+        F_CAT => {
+            let v = rng.pick(&["/a", "/a/b", "/a/b/c", "/x", "/x/y", "/q"]).to_string();
+            Lit { text: v.clone(), val: Val::Facet(v) }
+        }
+        F_TAG => lit_str(*rng.pick(TAGS)),
+        _ => {
+            let w = rng.pick(WORDS).to_string();
+            if rng.chance(1, 8) { lit_str(&w.to_uppercase()) } else { lit_str(&w) }
+        }
+    }
+}
+
+/// how a literal of this field may be written
+fn delim_for(rng: &mut Rng, f: Option<usize>, text: &str) -> Delim {
+    let must_quote = matches!(f, Some(F_CAT)) && text.matches('/').count() == 2 && false;
+    let _ = must_quote;
+    match f {
+        // a facet `/a/b` is read as the regex `/a/` followed by `b` only when a delimiter follows; quote sometimes
+        Some(F_WHEN) | Some(F_IP) | Some(F_BLOB) | Some(F_CAT) => *rng.pick(&[Delim::Double, Delim::Single, Delim::None]),
+        _ => *rng.pick(&[Delim::None, Delim::None, Delim::None, Delim::Double, Delim::Single]),
+    }
+}
+
+fn gen_sem_leaf(rng: &mut Rng) -> LeafSpec {
+    match rng.below(100) {
+        0..=29 => {
+            // word on a text field or the default fields
+            let field = *rng.pick(&[None, None, Some(F_TITLE), Some(F_BODY), Some(F_TAG), Some(F_JSK), Some(F_JSAB)]);
+            let lit = typed_lit(rng, field.unwrap_or(F_TITLE));
+            let delim = delim_for(rng, field, &lit.text);
+            // `a~2` unquoted is the word "a~2": slop only after a quoted literal
+            let slop = if delim != Delim::None && rng.chance(1, 6) { 2 } else { 0 };
+            LeafSpec::Lit { field, lit, delim, slop }
+        }
+        30..=44 => {
+            let field = *rng.pick(&[None, Some(F_TITLE), Some(F_BODY)]);
+            let n = if rng.chance(1, 4) { 3 } else { 2 };
+            let words: Vec<String> = (0..n).map(|_| rng.pick(WORDS).to_string()).collect();
+            let (slop, prefix) = match rng.below(4) {
+                0 if n == 2 => (1 + rng.below(3) as u32, false),
+                1 => (0, true),
+                _ => (0, false),
+            };
+            LeafSpec::Phrase { field, words, delim: *rng.pick(&[Delim::Double, Delim::Double, Delim::Single]), slop, prefix }
+        }
+        45..=59 => {
+            // typed term
+            let f = *rng.pick(&[F_U64, F_I64, F_F64, F_WHEN, F_IP, F_BLOB, F_FLAG, F_CAT, F_JSN]);
+            let lit = typed_lit(rng, f);
+            let mut delim = delim_for(rng, Some(f), &lit.text);
+            if lit.text.starts_with('-') && delim == Delim::None && false {
+                delim = Delim::Double;
+            }
+            LeafSpec::Lit { field: Some(f), lit, delim, slop: 0 }
+        }
+        60..=81 => {
+            let f = *rng.pick(&[F_TITLE, F_BODY, F_TAG, F_U64, F_I64, F_F64, F_WHEN, F_IP, F_U64, F_I64]);
+            let a = typed_lit(rng, f);
+            let b = typed_lit(rng, f);
+            // range bounds are bare words: no whitespace / brackets / quotes inside
+            let bare = |l: &Lit| !l.text.chars().any(|c| c.is_whitespace() || "{}[]()\"".contains(c));
+            if !bare(&a) || !bare(&b) {
+                return gen_sem_leaf(rng);
+            }
+            let (a, b) = if a.val.cmp(&b.val) == Some(std::cmp::Ordering::Greater) { (b, a) } else { (a, b) };
+            let elastic = rng.chance(1, 3);
+            let (lo, hi) = if elastic {
+                match rng.below(4) {
+                    0 => (Bd::Incl(a), Bd::Unbounded),
+                    1 => (Bd::Excl(a), Bd::Unbounded),
+                    2 => (Bd::Unbounded, Bd::Incl(b)),
+                    _ => (Bd::Unbounded, Bd::Excl(b)),
+                }
+            } else {
+                let lo = match rng.below(5) {
+                    0 => Bd::Unbounded,
+                    1 | 2 => Bd::Incl(a),
+                    _ => Bd::Excl(a),
+                };
+                let hi = match rng.below(5) {
+                    0 if !matches!(lo, Bd::Unbounded) => Bd::Unbounded,
+                    1 | 2 => Bd::Incl(b),
+                    _ => Bd::Excl(b),
+                };
+                (lo, hi)
+            };
+            // elastic bounds stop at `)`; a text bound containing an escaped char is avoided above
+            LeafSpec::Range { field: Some(f), lo, hi, elastic }
+        }
+        82..=91 => {
+            let f = *rng.pick(&[F_TITLE, F_TAG, F_U64, F_I64, F_IP, F_FLAG, F_CAT, F_F64]);
+            let n = rng.below(4) as usize;
+            let elems = (0..n)
+                .map(|_| {
+                    let l = typed_lit(rng, f);
+                    let d = delim_for(rng, Some(f), &l.text);
+                    (l, d)
+                })
+                .collect();
+            LeafSpec::Set { field: Some(f), elems }
+        }
+        92..=94 => LeafSpec::Exists { field: *rng.pick(&[F_TITLE, F_U64, F_TAG]) },
+        _ => LeafSpec::All,
+    }
+}
+
+/// grammar-level leaves: arbitrary field names, no schema
+fn gen_wild_leaf(rng: &mut Rng) -> LeafSpec {
+    let field = if rng.chance(1, 2) { None } else { Some(rng.usize_below(FIELDS.len())) };
+    match rng.below(20) {
+        0..=9 => {
+            let w = format!("w{}", rng.below(6));
+            let delim = *rng.pick(&[Delim::None, Delim::None, Delim::Double, Delim::Single]);
+            LeafSpec::Lit { field, lit: lit_str(&w), delim, slop: if delim != Delim::None && rng.chance(1, 4) { rng.below(4) as u32 } else { 0 } }
+        }
+        10..=11 => {
+            let t = rng.pick(&["-5", "-1.5", "x-y", "k:v", "sp ace", "it's", "say \"hi\"", "a\\b", "é", "日本", "1.5", "+1"]).to_string();
+            let delim = if t.starts_with('+') || t.contains('"') || t.contains('\'') || t.contains('\\') {
+                // written quoted: the quoting/escaping printer handles these
+                *rng.pick(&[Delim::Double, Delim::Single])
+            } else {
+                *rng.pick(&[Delim::None, Delim::Double, Delim::Single])
+            };
+            // an unquoted leading `-` without a field is the MustNot marker
+            let delim = if field.is_none() && t.starts_with('-') && delim == Delim::None { Delim::Double } else { delim };
+            LeafSpec::Lit { field, lit: lit_str(&t), delim, slop: 0 }
+        }
+        12..=13 => {
+            let words: Vec<String> = (0..2 + rng.below(2)).map(|_| format!("w{}", rng.below(6))).collect();
+            let (slop, prefix) = match rng.below(3) {
+                0 => (1 + rng.below(300) as u32, false),
+                1 => (0, true),
+                _ => (0, false),
+            };
+            LeafSpec::Phrase { field, words, delim: *rng.pick(&[Delim::Double, Delim::Single]), slop, prefix }
+        }
+        14..=15 => {
+            let a = lit_str(*rng.pick(&["1", "a", "-5", "2002-10-02T15:00:00Z", "1.5", "abc"]));
+            let b = lit_str(*rng.pick(&["9", "z", "-1", "2003-10-02T15:00:00Z", "70.5", "toto"]));
+            let field = if a.text.contains(':') || b.text.contains(':') { Some(field.unwrap_or(F_WHEN)) } else { field };
+            let elastic = rng.chance(1, 3);
+            let (lo, hi) = if elastic {
+                match rng.below(4) {
+                    0 => (Bd::Incl(a), Bd::Unbounded),
+                    1 => (Bd::Excl(a), Bd::Unbounded),
+                    2 => (Bd::Unbounded, Bd::Incl(b)),
+                    _ => (Bd::Unbounded, Bd::Excl(b)),
+                }
+            } else {
+                (
+                    match rng.below(3) { 0 => Bd::Unbounded, 1 => Bd::Incl(a), _ => Bd::Excl(a) },
+                    match rng.below(3) { 0 => Bd::Unbounded, 1 => Bd::Incl(b), _ => Bd::Excl(b) },
+                )
+            };
+            LeafSpec::Range { field, lo, hi, elastic }
+        }
+        16..=17 => {
+            let n = rng.below(4) as usize;
+            let elems = (0..n)
+                .map(|_| {
+                    let t = rng.pick(&["a", "b", "cd", "1", "-2", "x y"]).to_string();
+                    let d = if t.contains(' ') { Delim::Double } else { *rng.pick(&[Delim::None, Delim::Double, Delim::Single]) };
+                    (lit_str(&t), d)
+                })
+                .collect();
+            LeafSpec::Set { field, elems }
+        }
+        18 => LeafSpec::Exists { field: rng.usize_below(FIELDS.len()) },
+        _ => LeafSpec::All,
+    }
+}
+
+struct QGen<'a> {
+    rng: &'a mut Rng,
+    g: Gen,
+    wild: bool,
+    allow_dups: bool,
+}
+
+impl<'a> QGen<'a> {
+    fn leaf(&mut self) -> Q {
+        let l = if self.wild { gen_wild_leaf(self.rng) } else { gen_sem_leaf(self.rng) };
+        self.g.leaves.push(l);
+        Q::Leaf(self.g.leaves.len() - 1)
+    }
+    /// an operand: leaf, boosted operand, group, scoped group
+    fn operand(&mut self, depth: u32) -> Q {
+        let r = self.rng.below(100);
+        if depth == 0 || r < 55 {
+            let l = self.leaf();
+            let elastic = matches!(self.g.leaves.last(), Some(LeafSpec::Range { elastic: true, .. }));
+            if !elastic && self.rng.chance(1, 8) {
+                return Q::Boost(Box::new(l), *self.rng.pick(&[2.0, 0.5, 3.25, 10.0, 0.0]));
+            }
+            return l;
+        }
+        if r < 80 {
+            let s = self.seq(depth - 1, false);
+            if self.rng.chance(1, 6) {
+                return Q::Boost(Box::new(s), *self.rng.pick(&[2.0, 0.5, 1.5]));
+            }
+            return s;
+        }
+        if r < 88 {
+            // redundant parentheses
+            let inner = self.operand(depth - 1);
+            return Q::Seq(vec![(None, None, inner)]);
+        }
+        if r < 95 {
+            let f = if self.wild { *self.rng.pick(&[F_TITLE, F_BODY, F_TAG]) } else { *self.rng.pick(&[F_TITLE, F_BODY]) };
+            let s = self.seq(depth - 1, false);
+            return Q::Scoped(f, Box::new(s));
+        }
+        if self.wild {
+            let inner = self.operand(depth - 1);
+            let inner = match inner {
+                Q::Boost(i, _) => *i,
+                o => o,
+            };
+            return Q::Neg(Box::new(inner));
+        }
+        self.leaf()
+    }
+    fn seq(&mut self, depth: u32, top: bool) -> Q {
+        let n = match self.rng.below(10) {
+            0 => 1,
+            1..=4 => 2,
+            5..=7 => 3,
+            8 => 4,
+            _ => 5 + self.rng.below(3) as usize,
+        };
+        let form = self.rng.below(if self.wild { 3 } else { 2 });
+        let mut items: Vec<(Option<Op>, Option<Occ>, Q)> = vec![];
+        for k in 0..n {
+            let mut sub = self.operand(depth);
+            let (op, occ) = match form {
+                0 => (if k == 0 { None } else { Some(if self.rng.chance(1, 2) { Op::And } else { Op::Or }) }, None),
+                1 => {
+                    let occ = match self.rng.below(6) {
+                        0 | 1 => Some(Occ::Must),
+                        2 => Some(Occ::MustNot),
+                        _ => None,
+                    };
+                    if occ.is_none() && self.rng.chance(1, 10) && n >= 2 {
+                        // `NOT x` as an unmarked clause is `-x`
+                        let inner = match sub {
+                            Q::Boost(i, _) => *i,
+                            o => o,
+                        };
+                        sub = Q::Neg(Box::new(inner));
+                    }
+                    (None, occ)
+                }
+                _ => {
+                    let op = if k == 0 { None } else { *self.rng.pick(&[None, Some(Op::And), Some(Op::Or)]) };
+                    let occ = *self.rng.pick(&[None, None, Some(Occ::Must), Some(Occ::MustNot)]);
+                    (op, occ)
+                }
+            };
+            items.push((op, occ, sub));
+        }
+        if self.allow_dups && n >= 2 && self.rng.chance(1, 10) {
+            let k = self.rng.usize_below(items.len());
+            let mut dup = items[k].clone();
+            if form == 0 || (form == 2 && dup.0.is_none()) {
+                dup.0 = Some(if self.rng.chance(1, 2) { Op::And } else { Op::Or });
+            }
+            if form == 1 {
+                dup.0 = None;
+            }
+            items.push(dup);
+        }
+        if !self.wild && !top {
+            // the documentation gives no meaning to a parenthesised lone negative clause
+            let lone_neg = items.len() == 1 && (items[0].1 == Some(Occ::MustNot) || matches!(items[0].2, Q::Neg(_)));
+            let all_neg_marks = is_marks(&items) && items.iter().all(|i| i.1 == Some(Occ::MustNot) || matches!(i.2, Q::Neg(_)));
+            if lone_neg || (all_neg_marks && has_dup_items(&Q::Seq(items.clone()))) {
+                items[0].1 = None;
+                if let Q::Neg(inner) = items[0].2.clone() {
+                    items[0].2 = *inner;
+                }
+            }
+        }
+        Q::Seq(items)
+    }
+}
+
+fn gen_query(rng: &mut Rng, wild: bool, allow_dups: bool) -> (Gen, Q) {
+    let depth = rng.below(3) as u32;
+    let mut qg = QGen { rng, g: Gen { leaves: vec![] }, wild, allow_dups };
+    let q = if qg.rng.chance(1, 12) { qg.operand(depth) } else { qg.seq(depth, true) };
+    let g = qg.g;
+    (g, q)
+}
+
+// ------------------------------------------------------------------------------------------
+// canonical form of the real UserInputAst
+// ------------------------------------------------------------------------------------------
+
+fn field_id(name: Option<&str>) -> String {
+    match name {
+        None => "-".into(),
+        Some(n) => match FIELDS.iter().position(|f| *f == n) {
+            Some(i) => i.to_string(),
+            None => format!("?{n}"),
+        },
+    }
+}
+
+fn canon_ast(v: &Value, intern: &mut Intern, out: &mut Vec<String>) {
+    let ty = v["type"].as_str().unwrap_or("");
+    let bound = |b: &Value| match b["type"].as_str().unwrap_or("") {
+        "inclusive" => format!("i:{}", b["value"].as_str().unwrap_or("")),
+        "exclusive" => format!("e:{}", b["value"].as_str().unwrap_or("")),
+        _ => "u".to_string(),
+    };
+    match ty {
+        "bool" => {
+            let cs = v["clauses"].as_array().cloned().unwrap_or_default();
+            out.push("c".into());
+            out.push(cs.len().to_string());
+            for c in cs {
+                out.push(match c[0].as_str() {
+                    None => "-",
+                    Some("should") => "s",
+                    Some("must") => "m",
+                    Some("must_not") => "x",
+                    Some(_) => "?",
+                }.into());
+                canon_ast(&c[1], intern, out);
+            }
+        }
+        "boost" => {
+            out.push("b".into());
+            let b = v["boost"].as_f64().unwrap_or(f64::INFINITY);
+            out.push(b.to_bits().to_string());
+            canon_ast(&v["underlying"], intern, out);
+        }
+        "literal" => {
+            let d = format!("L|{}|{}|{}|{}", v["phrase"].as_str().unwrap_or(""), v["delimiter"].as_str().unwrap_or(""), v["slop"], v["prefix"]);
+            out.extend(["l".to_string(), field_id(v["field_name"].as_str()), "0".into(), intern.id(&d).to_string()]);
+        }
+        "range" => {
+            let d = format!("R|{}|{}", bound(&v["lower"]), bound(&v["upper"]));
+            out.extend(["l".to_string(), field_id(v["field"].as_str()), "1".into(), intern.id(&d).to_string()]);
+        }
+        "set" => {
+            let els: Vec<String> = v["elements"].as_array().map(|a| a.iter().map(|e| e.as_str().unwrap_or("").to_string()).collect()).unwrap_or_default();
+            let d = format!("S|{}", els.join("|"));
+            out.extend(["l".to_string(), field_id(v["field"].as_str()), "2".into(), intern.id(&d).to_string()]);
+        }
+        "exists" => out.extend(["l".to_string(), field_id(v["field"].as_str()), "3".into(), "0".into()]),
+        "all" => out.extend(["l".to_string(), "-".into(), "4".into(), "0".into()]),
+        other => out.extend(["l".to_string(), "-".into(), "5".into(), format!("?{other}")]),
+    }
+}
+
+fn canon(ast: &UserInputAst, intern: &mut Intern) -> String {
+    let v = serde_json::to_value(ast).unwrap_or(Value::Null);
+    let mut out = vec![];
+    canon_ast(&v, intern, &mut out);
+    out.join(",")
+}
+
+// ------------------------------------------------------------------------------------------
+// the real parsers, guarded
+// ------------------------------------------------------------------------------------------
+
+fn panic_text(e: Box<dyn std::any::Any + Send>) -> String {
+    if let Some(s) = e.downcast_ref::<&str>() {
+        s.to_string()
+    } else if let Some(s) = e.downcast_ref::<String>() {
+        s.clone()
+    } else {
+        "non-string panic".into()
+    }
+}
+
+fn panic_key(msg: &str) -> &'static str {
+    if msg.contains("Exist query without a field") {
+        KEY_EXISTS_PANIC
+    } else if msg.contains("JSON value bytes should be empty") {
+        KEY_JSON_NUL
+    } else {
+        "C16:panic"
+    }
+}
+
+struct World {
+    index: Index,
+    docs: Vec<DocRec>,
+    parser_or: QueryParser,
+    parser_and: QueryParser,
+}
+
+fn build_world(rng: &mut Rng, ndocs: usize) -> World {
+    let mut sb = Schema::builder();
+    sb.add_text_field("title", TEXT | STORED);
+    sb.add_text_field("body", TEXT);
+    sb.add_text_field("tag", STRING);
+    sb.add_u64_field("n_u64", INDEXED | FAST);
+    sb.add_i64_field("n_i64", INDEXED);
+    sb.add_f64_field("n_f64", INDEXED | FAST);
+    sb.add_date_field("when", INDEXED | FAST);
+    sb.add_ip_addr_field("ip", INDEXED | FAST);
+    sb.add_bytes_field("blob", INDEXED);
+    sb.add_bool_field("flag", INDEXED);
+    sb.add_facet_field("cat", tantivy::schema::FacetOptions::default());
+    sb.add_json_field("js", TEXT);
+    sb.add_u64_field("id", FAST | STORED);
+    let schema = sb.build();
+    let index = Index::create_in_ram(schema.clone());
+    let mut w: IndexWriter = index.writer_with_num_threads(1, 20_000_000).unwrap();
+    let docs: Vec<DocRec> = (0..ndocs).map(|_| gen_doc(rng)).collect();
+    let cut = if rng.chance(1, 2) { ndocs / 2 } else { ndocs };
+    for (i, d) in docs.iter().enumerate() {
+        let doc = TantivyDocument::parse_json(&schema, &d.to_json(i as u64).to_string()).expect("doc json");
+        w.add_document(doc).unwrap();
+        if i + 1 == cut {
+            w.commit().unwrap();
+        }
+    }
+    w.commit().unwrap();
+    drop(w);
+    let defaults: Vec<_> = DEFAULT_FIELDS.iter().map(|f| schema.get_field(FIELDS[*f]).unwrap()).collect();
+    let parser_or = QueryParser::for_index(&index, defaults.clone());
+    let mut parser_and = QueryParser::for_index(&index, defaults);
+    parser_and.set_conjunction_by_default();
+    World { index, docs, parser_or, parser_and }
+}
+
+fn run_query(w: &World, q: &dyn tantivy::query::Query) -> Result<BTreeSet<usize>, String> {
+    let reader = w.index.reader().map_err(|e| e.to_string())?;
+    let searcher = reader.searcher();
+    let hits = searcher.search(q, &DocSetCollector).map_err(|e| e.to_string())?;
+    let mut out = BTreeSet::new();
+    for a in hits {
+        let seg = searcher.segment_reader(a.segment_ord);
+        let col = seg.fast_fields().u64("id").map_err(|e| e.to_string())?;
+        out.insert(col.first(a.doc_id).unwrap_or(u64::MAX) as usize);
+    }
+    Ok(out)
+}
+
+fn bits(set: &BTreeSet<usize>, n: usize) -> String {
+    (0..n).map(|i| if set.contains(&i) { '1' } else { '0' }).collect()
+}
+
+include!("c16_parts.rs");
